@@ -71,6 +71,9 @@ type probeClient struct {
 }
 
 type recorder struct {
+	gate    chan struct{} // when set: the first Points callback blocks until it is closed
+	entered chan struct{} // closed when that callback has been entered
+	gated   sync.Once
 	mu      sync.Mutex
 	events  map[string][]event // per placement (the client's parent id)
 	started []Probe
@@ -113,6 +116,9 @@ func conv(ps []data.Point) []fix.P {
 	return out
 }
 func (c *probeClient) Points(id string, ps []data.Point) {
+	if c.rec.gate != nil {
+		c.rec.gated.Do(func() { close(c.rec.entered); <-c.rec.gate })
+	}
 	c.rec.add(c.cfg.Parent, event{Kind: "points", Node: id, Pts: conv(ps)})
 }
 func (c *probeClient) EdgePoints(id, parent string, ps []data.Point) {
@@ -134,7 +140,16 @@ func TestPropToldOfForeignChanges(t *testing.T) {
 	rapid.Check(t, func(t *rapid.T) {
 		in := fix.New(t, fix.Opts{ID: "inst"})
 		defer in.Close()
+		// timestamps are the writers' business: years in the past, around now, or in
+		// the future; per identity they never decrease
+		clockBase := rapid.SampledFrom([]string{"past", "now", "future"}).Draw(t, "clockBase")
 		clock := int64(1800000000) * 1e9
+		switch clockBase {
+		case "past":
+			clock = int64(1500000000) * 1e9
+		case "now":
+			clock = time.Now().UnixNano() - int64(2*time.Second)
+		}
 		tick := func() time.Time { clock += 1000; return time.Unix(0, clock) }
 		mk := func(id, parent, typ string) {
 			r, err := in.EdgePoints(id, parent, data.Points{{Type: data.PointTypeTombstone, Time: tick(), Origin: "setup"}, {Type: data.PointTypeNodeType, Text: typ, Origin: "setup"}})
@@ -147,6 +162,10 @@ func TestPropToldOfForeignChanges(t *testing.T) {
 		mk("k2", pID, "probeKid")
 		mk("g", "k1", "variable")
 		mk("sib", "inst", "variable")
+		// mx: a node whose first parent lies outside P's subtree and whose second
+		// parent lies inside it -- it is a descendant of P all the same
+		mk("mx", "sib", "variable")
+		mk("mx", "k2", "variable")
 		// in a third of the cases P is mirrored under a group: two clients, one per
 		// placement, and both must be told everything
 		placements := []string{"inst"}
@@ -234,7 +253,7 @@ func TestPropToldOfForeignChanges(t *testing.T) {
 			base[pl] = len(rec.snapshotOf(pl))
 		}
 
-		nodeTargets := []string{pID, "k1", "k2", "g", "sib", "inst"}
+		nodeTargets := []string{pID, "k1", "k2", "g", "sib", "inst", "mx"}
 		edgeTargets := [][2]string{{"k1", pID}, {"k2", pID}, {pID, "inst"}, {"g", "k1"}, {"sib", "inst"}}
 		if len(placements) > 1 {
 			edgeTargets = append(edgeTargets, [2]string{pID, "grp"})
@@ -286,7 +305,7 @@ func TestPropToldOfForeignChanges(t *testing.T) {
 			optional bool
 		}
 		var expected []exp
-		inSubtree := map[string]bool{pID: true, "k1": true, "k2": true, "g": true}
+		inSubtree := map[string]bool{pID: true, "k1": true, "k2": true, "g": true, "mx": true}
 		outcomes := map[string]bool{}
 		folded := []batch{}
 		for _, b := range batches {
@@ -385,7 +404,7 @@ func TestPropToldOfForeignChanges(t *testing.T) {
 		x := start
 		for _, b := range folded {
 			if b.parent == "" {
-				if b.target != "g" {
+				if b.target != "g" && b.target != "mx" { // grandchildren are not part of the configuration
 					if err := data.MergePoints(b.target, b.pts, &x); err != nil {
 						t.Fatalf("MergePoints(%s): %v", b.target, err)
 					}
@@ -421,6 +440,7 @@ func TestPropToldOfForeignChanges(t *testing.T) {
 		for o := range outcomes {
 			cls = append(cls, o)
 		}
+		cls = append(cls, "clock:"+clockBase)
 		sort.Strings(cls)
 		if len(placements) > 1 {
 			cls = append(cls, "mirroredClientNode")
@@ -447,4 +467,83 @@ func render(evs []event) string {
 		s = append(s, fmt.Sprintf("%3d %s", i, e))
 	}
 	return strings.Join(s, "\n")
+}
+
+// TestEnumBurstWhileClientBusy: a client that is busy in a callback while
+// hundreds of foreign batches are accepted is told of all of them, in order,
+// once it returns (sequences of any length; nothing may be dropped on the way
+// to a slow client).
+func TestEnumBurstWhileClientBusy(t *testing.T) {
+	for _, n := range []int{700, 1500} {
+		in := fix.New(t, fix.Opts{ID: "inst"})
+		clock := time.Now().UnixNano() - int64(time.Minute)
+		tick := func() time.Time { clock += 1000; return time.Unix(0, clock) }
+		if r, err := in.EdgePoints(pID, "inst", data.Points{{Type: data.PointTypeTombstone, Time: tick(), Origin: "setup"}, {Type: data.PointTypeNodeType, Text: "probe", Origin: "setup"}}); err != nil || r != "" {
+			t.Fatalf("setup: %q %v", r, err)
+		}
+		rec := &recorder{gate: make(chan struct{}), entered: make(chan struct{})}
+		mnc, err := in.Connect()
+		if err != nil {
+			t.Fatal(err)
+		}
+		mgr := client.NewManager(mnc, func(_ *nats.Conn, c Probe) client.Client {
+			return &probeClient{cfg: c, rec: rec, stop: make(chan struct{})}
+		}, nil)
+		mdone := make(chan error, 1)
+		go func() { mdone <- mgr.Run() }()
+		// warm-up until the subscription is in place: the first delivered batch parks the client in its callback
+		deadline := time.Now().Add(20 * time.Second)
+		for parked := false; !parked; {
+			if r, err := fix.Write(in.NC, "p."+pID, data.Points{{Type: "other", Text: "warmup", Time: tick(), Origin: "warmup"}}); err != nil || r != "" {
+				t.Fatalf("warm-up write: %q %v", r, err)
+			}
+			select {
+			case <-rec.entered:
+				parked = true
+			case <-time.After(100 * time.Millisecond):
+			}
+			if time.Now().After(deadline) {
+				t.Fatalf("the client was never told of a warm-up batch")
+			}
+		}
+		for i := 0; i < n; i++ {
+			if r, err := fix.Write(in.NC, "p."+pID, data.Points{{Type: "value", Value: float64(i), Time: tick(), Origin: "writer"}}); err != nil || r != "" {
+				t.Fatalf("write %d: %q %v", i, r, err)
+			}
+		}
+		close(rec.gate)
+		deadline = time.Now().Add(30 * time.Second)
+		var vals []float64
+		for {
+			vals = vals[:0]
+			for _, e := range rec.snapshot() {
+				for _, p := range e.Pts {
+					if p.Type == "value" {
+						vals = append(vals, p.Value)
+					}
+				}
+			}
+			if len(vals) >= n || time.Now().After(deadline) {
+				break
+			}
+			time.Sleep(10 * time.Millisecond)
+		}
+		if len(vals) != n {
+			t.Fatalf("%d foreign batches were accepted while the client was busy in a callback; it was told of %d of them", n, len(vals))
+		}
+		for i, v := range vals {
+			if v != float64(i) {
+				t.Fatalf("batch %d of the burst was delivered out of order (value %v)", i, v)
+			}
+		}
+		mgr.Stop(nil)
+		select {
+		case <-mdone:
+		case <-time.After(20 * time.Second):
+			t.Fatalf("manager did not stop")
+		}
+		mnc.Close()
+		in.Close()
+		stats.Enumerated(int64(n), int64(n), "burstWhileClientBusy")
+	}
 }
